@@ -51,7 +51,8 @@ TRUSTED = [
 CASE_T, JUDGE = "c15_case", "c15_judge"
 # a case that must be judged bad (observed tag "a_b" where the law gives "a-b")
 CANARY = ("({| k_name := [69]; k_msg := [98]; k_src := []; k_isfac := true; "
-          "k_steps := [(MDTag, mkA [] [97] [] VNil [] 0 [109]); (MDTag, mkA [] [98] [] VNil [] 4 [109])]; "
+          "k_steps := [(MDTag, mkA [] [97] [] VNil [] 0 [109;58]); (MDTag, mkA [] [98] [] VNil [] 4 [109;58])]; "
+          "k_frames := [[109]; [109]]; "
           "k_obs := [mkV [69] [98] [109] [97] None; mkV [69] [98] [109] [97;95;98] None]; "
           "k_fac_after := (mkV [69] [98] [] [] None) |})%N")
 
@@ -61,7 +62,7 @@ def nontrivial(j):
         u = gl.uses(s["m"])
         if s["m"] in gl.STACK_TAKING:
             return True
-        if "fmt" in u and s.get("rendered", "").strip():
+        if "fmt" in u and gl.go_trim(s.get("rendered", "")):
             return True
         if "dtag" in u and s["dtag"]:
             return True
@@ -110,7 +111,8 @@ def run(ctx):
     runs = [("corpus", ["-mode", "corpus"]),
             ("random", ["-mode", "random", "-n", 450 if quick else 8000]),
             ("nearmiss", ["-mode", "nearmiss", "-n", 250 if quick else 4000]),
-            ("sweep", ["-mode", "sweep", "-n", 1 if quick else 4])]
+            ("sweep", ["-mode", "sweep", "-n", 1 if quick else 4]),
+            ("exotic", ["-mode", "exotic"])]
     terms, jsons, err = vlib.harness_cases(ctx, binp, runs)
     if not err and corpus_inputs:
         t2, j2, err = gl.run_replay(ctx, binp, corpus_inputs, "corpusdir")
@@ -165,7 +167,7 @@ def run(ctx):
         "evaluations": len(jsons),
         "steps_compared": sum(len(j["steps"]) for j in jsons),
         "distinct_nontrivial": vlib.distinct_count([[j["fac"], [[s[k] for k in ("m", "src", "dtag", "format", "elems", "err", "flavour")] for s in j["steps"]]] for j in nt]),
-        "nontrivial_by_coq_predicate": nt_coq,
+        "nontrivial_by_coq_predicate": max(0, nt_coq - 2),  # minus the two canary cases
         "rule": "cases = one factory (FactoryOf or bare; empty/preset/blank Message and Source) + a chain of 0-8 "
                 "of the 19 Factory methods issued from 36 distinct call-site functions (plain, pointer-"
                 "receiver, value-receiver, closure); arguments drawn from letters, CJK, emoji, combining "
